@@ -1255,6 +1255,7 @@ void SZ_compress_args_int8_withinRange(unsigned char** newByteData, int8_t *oriD
 	tdps->isLossless = 0;
 	//tdps->exactByteSize = 4;
 	tdps->exactDataNum = 1;
+	tdps->dataTypeSize = sizeof(int8_t); //it goes into the flag byte of the stream
 	tdps->exactDataBytes_size = 1;
 
 	int8_t value = oriData[0];
